@@ -90,7 +90,7 @@ srv_harness! {
 }
 
 srv_harness! {
-    #[kani::unwind(17)]
+    #[kani::unwind(3)]
     fn c18_echo_first_byte() {
         // other first bytes (48-byte requests, serving policy): LI 3; every other mode of v4;
         // versions 0,1,2,6,7 and a v5 request without draft identification: LI is ignored,
@@ -98,15 +98,14 @@ srv_harness! {
         // malformed lengths.
         let mut msg: [u8; 72 + SLACK] = kani::any();
         let env = Env::any().with(Policy::Serve);
-        const B0: [u8; 15] = [0xE3, 0xDB, 0x20, 0x21, 0x22, 0x24, 0x25, 0x26, 0x27, 0x03, 0x0B, 0x13, 0x33, 0x3B, 0x2B];
-        let mut i = 0;
-        while i < B0.len() {
-            msg[0] = B0[i];
+        // unrolled by macro: a harness-level loop would raise the unwind bound for every loop
+        macro_rules! first_bytes { ($($b:expr => $answered:expr),*) => { $(
+            msg[0] = $b;
             let r = echo_plain(&msg[..48], &env);
-            kani::cover!(i < 2 && r == Some(Kind::Time), "LI bits of the request are ignored");
-            kani::cover!(i >= 2 && r.is_none(), "not a v3/v4 client request: dropped");
-            i += 1;
-        }
+            assert!(r.is_some() == $answered, "answered iff v3/v4 client request");
+        )* } }
+        first_bytes!(0xE3 => true, 0xDB => true, 0x20 => false, 0x21 => false, 0x22 => false, 0x24 => false, 0x25 => false,
+            0x26 => false, 0x27 => false, 0x03 => false, 0x0B => false, 0x13 => false, 0x33 => false, 0x3B => false, 0x2B => false);
         msg[0] = 0x23;
         let r = echo_plain(&msg[..68], &env);
         kani::cover!(r == Some(Kind::Time), "20-byte MAC");
@@ -291,5 +290,84 @@ srv_harness! {
         reflect_v5_once(msg, &env.with(Policy::Serve), &bloom);
         wr16(msg, 64, 510);
         reflect_v5_once(msg, &env.with(Policy::Serve), &bloom);
+    }
+}
+
+// ==========================================================================================
+// Packet-level reflection harnesses: the answer *before* serialization (hook
+// `server_handle_inner`, a thin wrapper around the private `Server::handle_inner`). The
+// byte-level versions above (c18_reflect_*) are kept for reference but are NOT registered: symbolic
+// execution of the serializer for an answer with even one echoed field needs 570 s of symex and
+// then > 8 GB in the solver (measured). What is decided here: which extension fields the answer
+// is made of. Their wire encoding is C24's subject.
+use ntp_proto::verif::packet::{self as ph, Ef};
+use ntp_proto::verif::server as sh;
+use ntp_proto::verif::time_types as th;
+
+fn is_uid_echo(ef: &Ef<'_>, req: &[u8], off: usize, len: usize) -> bool {
+    match ef {
+        Ef::UniqueIdentifier(d) => d.len() == len && same(d, 0, req, off, len),
+        _ => false,
+    }
+}
+
+/// NTPv4 T{ header48 | uid(8) | other(unknown type, 12 bytes) | uid(32) }
+fn reflect_v4_inner(policy: Policy) -> Option<Kind> {
+    const LEN: usize = 48 + 12 + 16 + 36;
+    let mut backing: [u8; LEN + SLACK] = kani::any();
+    let msg = &mut backing[..LEN];
+    let env = Env::any().with(policy);
+    msg[0] = 0x23; // LI 0, version 4, client mode
+    put_ef(msg, 48, EF_UID, 12);
+    put_ef(msg, 60, OTHER_TYPE, 16);
+    put_ef(msg, 76, EF_UID, 36);
+    let msg: &[u8] = msg;
+    let mut server = env.server(v5::BloomFilter::new(), empty_keyset());
+    let mut stats = RecStats::default();
+    let res = sh::server_handle_inner(&mut server, env.client_ip(), env.recv(), msg, &mut stats);
+    let out = match res {
+        Err(_) => {
+            assert!(false, "well-formed client request is answered");
+            None
+        }
+        Ok(d) => {
+            let p = &d.packet;
+            let expect = if env.deny_client { Kind::Deny } else { Kind::Time };
+            assert!(d.action == if env.deny_client { ServerResponse::Deny } else { ServerResponse::ProvideTime }, "policy outcome");
+            assert!(d.cipher.is_none() && !d.nts, "plain answer");
+            assert!(p.mode() == NtpAssociationMode::Server && p.version() == NtpVersion::V4, "server mode, request's version");
+            if expect == Kind::Time {
+                assert!(p.stratum() == env.stratum && th::ts_raw(p.receive_timestamp()) == env.recv_raw && th::ts_raw(p.transmit_timestamp()) == env.now_raw,
+                    "time answer carries stratum, reception time, clock reading");
+                assert!(p.poll() == th::poll_from_raw(msg[2] as i8), "poll echoed");
+            } else {
+                assert!(p.stratum() == 0 && th::ts_raw(p.receive_timestamp()) == 0 && th::ts_raw(p.transmit_timestamp()) == 0 && p.reference_id() == ReferenceId::KISS_DENY,
+                    "DENY: stratum 0, no server timestamps");
+            }
+            let u = ph::packet_untrusted(p);
+            assert!(ph::packet_authenticated(p).len() == 0 && ph::packet_encrypted(p).len() == 0, "nothing authenticated/encrypted in a plain answer");
+            assert!(u.len() == 2, "C18: exactly the two unique identifiers are echoed, the unknown field is not reflected");
+            assert!(is_uid_echo(&u[0], msg, 52, 8) && is_uid_echo(&u[1], msg, 80, 32), "identifiers echoed unchanged, in order");
+            std::mem::forget(d);
+            Some(expect)
+        }
+    };
+    std::mem::forget(server);
+    out
+}
+
+srv_harness! {
+    #[kani::unwind(5)]
+    fn c18_fields_v4_time() {
+        let r = reflect_v4_inner(Policy::Serve);
+        kani::cover!(r == Some(Kind::Time), "time answer made of the two identifier echoes");
+    }
+}
+
+srv_harness! {
+    #[kani::unwind(5)]
+    fn c18_fields_v4_deny() {
+        let r = reflect_v4_inner(Policy::DenyAddress);
+        kani::cover!(r == Some(Kind::Deny), "DENY made of the two identifier echoes");
     }
 }
